@@ -11,6 +11,8 @@ structure T where
   metaWithout : Option Bytes := none   -- MetadataEnsureWithoutSetDataFrame
   vsh : Option Bytes := none           -- VideoSeqHeader
   ash : Option Bytes := none           -- AacSeqHeader
+  vshPayload : Option Bytes := none    -- videoSeqHeaderPayload
+  ashPayload : Option Bytes := none    -- aacSeqHeaderPayload
   ring : List (List Bytes) := []       -- gopRing, length gopSize
   first : Nat := 0
   last : Nat := 0
@@ -55,8 +57,17 @@ def feedLastGop (g : T) (item : Bytes) : T × Bool :=
 /-- `Feed(msg, b)` -/
 def feed (g : T) (typ : Nat) (payload : Bytes) (item : Bytes) : T × Bool :=
   if typ == 18 then (g, true)
-  else if typ == 8 && Classify.isAacSeqHeader typ payload then ({ g with ash := some item }, true)
-  else if typ == 9 && Classify.isVideoKeySeqHeader typ payload then ({ g with vsh := some item }, true)
+  else if typ == 8 && Classify.isAacSeqHeader typ payload then
+    let g1 := match g.ashPayload with
+      | some old => if old != payload then { g with first := 0, last := 0 } else g
+      | none => g
+    ({ g1 with ash := some item, ashPayload := some payload }, true)
+  else if typ == 9 && Classify.isVideoKeySeqHeader typ payload then
+    -- a changed video sequence header invalidates the cached GOPs
+    let g1 := match g.vshPayload with
+      | some old => if old != payload then { g with first := 0, last := 0 } else g
+      | none => g
+    ({ g1 with vsh := some item, vshPayload := some payload }, true)
   else if g.gopSize > 1 then
     if Classify.isVideoKeyNalu typ payload then (feedNewGop g item, true)
     else feedLastGop g item
@@ -67,6 +78,6 @@ def setMetadata (g : T) (w wo : Bytes) : T := { g with metaWith := some w, metaW
 
 /-- `Clear()` -/
 def clear (g : T) : T :=
-  { g with metaWith := none, metaWithout := none, vsh := none, ash := none, first := 0, last := 0 }
+  { g with metaWith := none, metaWithout := none, vsh := none, ash := none, vshPayload := none, ashPayload := none, first := 0, last := 0 }
 
 end Lal.GopCache
